@@ -19,6 +19,7 @@ import (
 	"fmt"
 	"go/format"
 	"go/types"
+	"sort"
 	"strconv"
 	"strings"
 )
@@ -210,12 +211,37 @@ func (tm *typesMap) nameOf(typs []types.Type) (string, bool) {
 			}
 		}
 	}
+	// More than one function can accept these types, for example a function for a named and a function for an unnamed slice.
+	// The choice between them should not depend on the order in which a map is iterated.
+	names := []string{}
 	for name, ts := range tm.funcToTyps {
 		if eq(typs, ts) {
+			names = append(names, name)
+		}
+	}
+	if len(names) == 0 {
+		return "", false
+	}
+	sort.Strings(names)
+	for _, name := range names {
+		if identical(typs, tm.funcToTyps[name]) {
 			return name, true
 		}
 	}
-	return "", false
+	return names[0], true
+}
+
+// identical returns whether the two lists contain identical types.
+func identical(this, that []types.Type) bool {
+	if len(this) != len(that) {
+		return false
+	}
+	for i, t := range this {
+		if !types.Identical(types.Default(t), types.Default(that[i])) {
+			return false
+		}
+	}
+	return true
 }
 
 func (tm *typesMap) Generating(typs ...types.Type) {
